@@ -62,8 +62,18 @@ def _mapping_keys(fn, e, depth=3):
     if depth == 0:
         return None
     if isinstance(e, ast.Dict):
-        ks = [const_str(k) for k in e.keys]
-        return None if any(k is None for k in ks) else ks
+        ks = []
+        for k, v in zip(e.keys, e.values):
+            if k is None:  # **mapping
+                sub = _mapping_keys(fn, v, depth - 1)
+                if sub is None:
+                    return None
+                ks.extend(sub)
+            elif const_str(k) is None:
+                return None
+            else:
+                ks.append(const_str(k))
+        return ks
     if isinstance(e, ast.DictComp) and len(e.generators) == 1 and not e.generators[0].ifs and isinstance(e.generators[0].target, ast.Name) \
             and is_name(e.key, e.generators[0].target.id):
         it = e.generators[0].iter
@@ -110,6 +120,15 @@ def db_accesses(fn, dbvar: str = "db"):
                     out.append((k, "w", n))
             else:
                 unknown.append(norm(n))
+        # the mapping written as one display: db = {"version": ..., **objects, ...}
+        if isinstance(n, ast.Assign) and len(n.targets) == 1 and is_name(n.targets[0], dbvar) and isinstance(n.value, (ast.Dict, ast.DictComp)) \
+                and (not isinstance(n.value, ast.Dict) or n.value.keys):
+            ks = _mapping_keys(fn, n.value)
+            if ks is not None:
+                for k in ks:
+                    out.append((k, "w", n))
+            else:
+                unknown.append(norm(n)[:80])
         # m = db[key + "..."] = value  (chained assignment)
     return out, unknown
 
